@@ -75,6 +75,24 @@ fn main() {
     j.set("wall_s", Json::Num(t0.elapsed().as_secs_f64()));
     let s = j.to_string();
     match out_path {
+        // Under Miri one process runs many scheduler seeds (-Zmiri-many-seeds):
+        // every seed writes its own report file so that none overwrites another.
+        Some(p) if opts.engine == "miri" => {
+            let nanos = std::time::SystemTime::now().duration_since(std::time::UNIX_EPOCH).map(|d| d.as_nanos()).unwrap_or(0);
+            let mut k = 0u32;
+            loop {
+                let path = format!("{}.{}-{}", p, nanos, k);
+                match std::fs::OpenOptions::new().write(true).create_new(true).open(&path) {
+                    Ok(mut f) => {
+                        use std::io::Write;
+                        f.write_all(s.as_bytes()).expect("cannot write report");
+                        break;
+                    }
+                    Err(e) if e.kind() == std::io::ErrorKind::AlreadyExists && k < 1000 => k += 1,
+                    Err(e) => panic!("cannot write report: {}", e),
+                }
+            }
+        }
         Some(p) => std::fs::write(p, s).expect("cannot write report"),
         None => println!("{}", s),
     }
